@@ -28,9 +28,11 @@ ASSUMPTIONS = [
 ]
 MIN_NONTRIVIAL_FRACTION = 0.2
 RULE += " Added after the seeded rounds: " + 'Cases may carry `pre` (expressions evaluated first by fresh engines: module-level caches); string literals include runs of blanks, tabs, NBSP and other Unicode spaces.'
+RULE += ' String contents are also drawn from arbitrary Unicode (operator look-alikes, typographic quotes, full-width digits, zero-width characters); numeric literals include non-dyadic and extreme floats (0.1, 0.3, 1e16, 1e308, -0.0) so that grouping and intermediate overflow are observable.'
 
 _int = st.one_of(st.integers(-9, 12), st.integers(-50, 50)).map(lambda n: str(n) if n >= 0 else "(%d)" % n)
-_float = st.sampled_from(["0.5", "2.567", "1.5", "0.0", "3.25", "1e3", "(-0.5)", "2.5"])
+# non-dyadic and extreme floats: grouping, evaluation order and intermediate overflow are observable (0.1 + (0.2 + 0.3) != (0.1 + 0.2) + 0.3)
+_float = st.sampled_from(["0.5", "2.567", "1.5", "0.0", "3.25", "1e3", "(-0.5)", "2.5", "0.1", "0.2", "0.3", "0.7", "1.1", "1e16", "1e308", "1e-320", "(-0.0)", "3.3"])
 _bool = st.sampled_from(["True", "False"])
 _strlit_fixed = st.sampled_from(["'abc'", "'True'", "'False'", "'a and b'", "' or '", "'x < y'", "\"it's\"", "''", "'not true'", "'ff'", "'12'", "' 7 '", "'3.5'", "'false'",
                            "'a  b'", "'tab\there'", "'nb\u00a0sp'", "'  lead'", "'trail   '", "'x\u2003y'", "'1 +  1'", "'(1,2)'", "'#c'"])
@@ -181,6 +183,8 @@ _CORNERS = [
     "5 if 0 else 6", "5 if 1 else 1/0", "1/0 if 0 else 2", "[1, 2] + [3]", "(1, 2) * 2", "[1, 2][0]" if False else "[1, 2] == [1, 2]",
     "True + True", "True and False", "True or False", "not True", "true" if False else "False == 0", "pi + e", "tau / 2", "inf > 10", "-inf < 0",
     "len('a  b')", "'a\tb' == 'a b'", "len('  ') + len('\u00a0')", "'x   y' + 'z'", "max('a  b', 'a b')",
+    "0.1 + (0.2 + 0.3)", "(0.1 + 0.2) + 0.3", "0.1 + 0.2 + 0.3", "1e16 + (1.0 + 1.0)", "1e308 * (10 * 0.01)", "1e308 * 10 * 0.01", "0.1 * (0.2 * 0.3)", "1.1 * (1.1 * 1.1)",
+    "1e16 + 1.0 - 1e16", "1e16 - 1e16 + 1.0", "1 - (2 - 3)", "8 / (4 / 2)", "2 ** (3 ** 2)", "2 ** 3 ** 2", "7 - 2 - 1", "7 - (2 - 1)", "(-0.0) + 0.0", "0.0 + (-0.0)", "atan2((-0.0), (-1))",
     "abs(-3) + abs(3.5)", "bool([])", "bool([0])", "int(2.9)", "float(3)", "pow(2, 3)", "factorial(5) / factorial(3)", "sqrt(16) + pi",
 ]
 
